@@ -400,6 +400,15 @@ example : freshTemps exState [exTxn] := by
   · intro x hx; simp at hx; subst hx; decide
   · intro x hx y hy; simp at hx hy; subst hx; subst hy; decide
 
+/-- the hypotheses of `C17_clean_follows_writes`: an entry that exists before the run and is gone at the last crash point -/
+example : exState.dir "link.go" ≠ none ∧ (exec exState ((runOps [exTxn] ["link.go"]).take 6)).dir "link.go" = none ∧
+    "link.go" ∉ tmps [exTxn] ∧ "link.go" ∉ targets [exTxn] := by decide
+
+/-- the hypothesis of `C17_clean_content_header`: a file given by its content that Clean removes -/
+example : "b.shootnew.beta.go" ∈ cleanLoop .new "a.shootnew.go"
+    ([("b.shootnew.beta.go", "// Code generated by \"shoot new -type=Beta\"; DO NOT EDIT. (v0.7.0)\n\npackage p\n")].map
+      (fun p => FileInfo.ofContent p.1 p.2)) := by decide
+
 /-- all five crash points of the example transaction, the hard link and the source file -/
 example : (List.range 6).map (fun k =>
       let s := exec exState ((runOps [exTxn] []).take k)
